@@ -8,7 +8,9 @@ import (
 	"context"
 	"fmt"
 	"github.com/jackc/pgx/v4"
+	"github.com/shutter-network/rolling-shutter/rolling-shutter/keyper/shutterevents"
 	"github.com/shutter-network/rolling-shutter/rolling-shutter/shdb"
+	abcitypes "github.com/tendermint/tendermint/abci/types"
 	"sort"
 	"strings"
 	"sync"
@@ -36,7 +38,7 @@ func main() {
 		Rule: "case = one history of 6 polling ticks; before each tick 0..4 successful key generations are recorded through the repository's InsertBatchConfig/InsertEon/InsertEonPublicKey queries (one or several keyper sets, restarts of the same set, any order), both publication modes (gossip broadcast with signature check, callback), all three table scan orders of the in-memory Postgres; " +
 			"oracle: multiset of publications == multiset of recorded key generations (eon, key bytes, activation block, keyper-set index). distinct = (mode, scan order, per-tick counts, set layout); non-trivial = some tick had >=2 pending keys",
 		Assumptions: []string{
-			"family e2e (idx%250==7): the key generations are real — three honest keypers are driven through the real shuttermint observer on their own databases over two keyper sets (in two thirds of the runs one keyper is left out of the second set), the polling step runs on every keyper's database every 1..4 rounds, and each keyper's publications must equal its successful dkg_result rows; the own position in a keyper set varies (0..2) in all families",
+			"family e2e (idx%250==7): the key generations are real — three honest keypers are driven through the real shuttermint observer on their own databases over two keyper sets (in two thirds of the runs one keyper is left out of the second set), the polling step runs on every keyper's database every 1..4 rounds, and each keyper's publications must equal its successful dkg_result rows; in a third of the e2e runs two of four keypers are played by the harness and vote "failed" right after eon 1 was finalized (shuttermint restarts a key generation the honest keypers recorded as successful); in half of the e2e runs nothing is polled until the end (everything completes within one polling interval); at the end every keyper's handler is started again (new object, real loop, 60 ms) and must hand over nothing twice; the own position in a keyper set varies (0..2) in all families",
 			"in two thirds of the histories the publication mechanism accepts everything offered (multiset equality asserted); in one third it refuses some eons, and only 'never handed over twice once accepted' is asserted",
 			"only eons of keyper sets the keyper belongs to are recorded (as finalizeDKG does)",
 			"one sixth of the histories record the key generations from a second goroutine while the polling step runs (verdict at quiescence); statement atomicity is pgmem's (each statement executes under the engine lock, as one Postgres statement is atomic)",
@@ -53,6 +55,8 @@ func main() {
 			agg.Require("loop_histories", 20)
 			agg.Require("e2e_successful_key_generations", 100)
 			agg.Require("e2e_runs_with_a_keyper_left_out_of_the_newest_set", 10)
+			agg.Require("e2e_runs_with_a_key_generation_restarted_by_vote", 5)
+			agg.Require("e2e_handler_restarts", 50)
 		},
 	})
 }
@@ -509,21 +513,40 @@ func diff(want, got []pub) (missing, extra []string) {
 func e2eCase(ctx context.Context, env *vlib.Env, idx int, r *vlib.Rng, rep *vlib.Reporter) {
 	n, t := 3, 2
 	excl := -1
-	if r.Chance(2, 3) {
+	// variant "revote": two of four keypers are played by the harness; they follow the protocol, but
+	// vote "failed" right after the key generation of eon 1 has been finalized, so that shuttermint
+	// starts it again although the honest keypers have recorded a success
+	revote := (idx/250)%3 == 2
+	var honest []bool
+	nsets := 2
+	if revote {
+		n, honest, nsets = 4, []bool{true, true, false, false}, 1
+	} else if r.Chance(2, 3) {
 		excl = r.Intn(n)
 	}
 	dkgsim.LastSetExcludes = excl
 	defer func() { dkgsim.LastSetExcludes = -1 }()
 	phaseLen := int64(4 + r.Intn(3)) // with a phase of 3 blocks no dealing arrives in time (the keypers act one block behind)
-	s, err := dkgsim.NewSimSets(ctx, env.Seed^uint64(idx)*0x9E3779B97F4A7C15, n, t, phaseLen, nil, 2)
+	s, err := dkgsim.NewSimSets(ctx, env.Seed^uint64(idx)*0x9E3779B97F4A7C15, n, t, phaseLen, honest, nsets)
 	if err != nil {
 		rep.Inconclusive("setup: " + err.Error())
 		return
 	}
 	defer s.Close()
+	var byz []*dkgsim.Byz
+	if revote {
+		for _, b := range []int{2, 3} {
+			byz = append(byz, s.NewByz(b, dkgsim.Strategy{Commitment: "correct", Eval: map[int]string{}, Accuse: -1, Apology: "correct", CheckIn: true, Vote: true}))
+		}
+	}
+	revoted := false
 	got := make([][]pub, n)
 	var hs []*keyper.VerifEonPubKeyHandler
 	for i, k := range s.Keypers {
+		if k == nil {
+			hs = append(hs, nil)
+			continue
+		}
 		i := i
 		cb := func(_ context.Context, e keyper.EonPublicKey) error {
 			got[i] = append(got[i], pub{e.Eon, e.ActivationBlock, e.KeyperConfigIndex, string(e.PublicKey)})
@@ -532,17 +555,39 @@ func e2eCase(ctx context.Context, env *vlib.Env, idx int, r *vlib.Rng, rep *vlib
 		hs = append(hs, keyper.VerifNewEonPubKeyHandler(k.Node.Pool, k.Cfg, &dbfix.RecMessaging{}, cb, false))
 	}
 	pollEvery := 1 + r.Intn(4)
+	if r.Chance(1, 2) {
+		pollEvery = 1 << 30 // everything completes within one polling interval
+	}
 	rounds := 0
 	for ; rounds < int(phaseLen)*12+40; rounds++ {
+		for _, b := range byz {
+			b.Step(ctx)
+		}
+		if revote && !revoted {
+			// the block after the one in which the honest keypers finalize: the harness keypers' votes
+			// come first in that block
+			if h0, ok := e2eEonStart(s, 1); ok && s.Chain.Height()+1 >= h0+3*phaseLen+1 {
+				for _, b := range byz {
+					b.VoteResult(1, false)
+				}
+				revoted = true
+			}
+		}
 		for _, i := range r.Perm(n) {
+			if s.Keypers[i] == nil {
+				continue
+			}
 			if err := s.Keypers[i].Step(ctx); err != nil {
 				rep.Inconclusive(fmt.Sprintf("keyper %d step: %v", i, err))
 				return
 			}
 		}
 		s.Chain.CloseBlock()
-		if rounds%pollEvery == 0 {
+		if rounds%pollEvery == pollEvery-1 {
 			for i, h := range hs {
+				if h == nil {
+					continue
+				}
 				if err := h.VerifQueryAndHandle(ctx); err != nil {
 					rep.Violationf("tick-error", map[string]any{"mode": "e2e", "keyper": i, "round": rounds}, "polling step of keyper %d failed in round %d: %v", i, rounds, err)
 					return
@@ -552,6 +597,9 @@ func e2eCase(ctx context.Context, env *vlib.Env, idx int, r *vlib.Rng, rep *vlib
 		// both key generations recorded by everyone who takes part?
 		doneAll := true
 		for i, k := range s.Keypers {
+			if k == nil {
+				continue
+			}
 			rows := k.Node.DB.Snapshot().Rows("dkg_result")
 			wantRows := 2
 			if i == excl {
@@ -566,6 +614,9 @@ func e2eCase(ctx context.Context, env *vlib.Env, idx int, r *vlib.Rng, rep *vlib
 		}
 	}
 	for i, h := range hs {
+		if h == nil {
+			continue
+		}
 		for j := 0; j < 2; j++ {
 			if err := h.VerifQueryAndHandle(ctx); err != nil {
 				rep.Violationf("tick-error", map[string]any{"mode": "e2e", "keyper": i}, "polling step of keyper %d failed: %v", i, err)
@@ -573,12 +624,42 @@ func e2eCase(ctx context.Context, env *vlib.Env, idx int, r *vlib.Rng, rep *vlib
 			}
 		}
 	}
+	// the keyper processes are started again: a new handler object runs the real polling loop on the
+	// same database for a few intervals; nothing is handed over a second time
+	for i, k := range s.Keypers {
+		if k == nil {
+			continue
+		}
+		i := i
+		cb := func(_ context.Context, e keyper.EonPublicKey) error {
+			got[i] = append(got[i], pub{e.Eon, e.ActivationBlock, e.KeyperConfigIndex, string(e.PublicKey)})
+			return nil
+		}
+		h2 := keyper.VerifNewEonPubKeyHandler(k.Node.Pool, k.Cfg, &dbfix.RecMessaging{}, cb, false)
+		lctx, cancel := context.WithCancel(ctx)
+		done := make(chan error, 1)
+		go func() { done <- h2.VerifLoop(lctx, 5*time.Millisecond) }()
+		time.Sleep(60 * time.Millisecond)
+		cancel()
+		<-done
+		rep.Obs("e2e_handler_restarts", 1)
+	}
+	if revote {
+		rep.Obs("e2e_runs_with_a_key_generation_restarted_by_vote", 1)
+		if _, ok := e2eEonStart(s, 2); !ok {
+			rep.Inconclusive("the scripted failure votes did not restart the key generation")
+			return
+		}
+	}
 	rep.Obs("e2e_runs", 1)
 	if excl >= 0 {
 		rep.Obs("e2e_runs_with_a_keyper_left_out_of_the_newest_set", 1)
 	}
-	shape := fmt.Sprintf("e2e/excl=%d/phase=%d/poll=%d", excl, phaseLen, pollEvery)
+	shape := fmt.Sprintf("e2e/excl=%d/revote=%t/phase=%d/poll=%d", excl, revote, phaseLen, pollEvery)
 	for i, k := range s.Keypers {
+		if k == nil {
+			continue
+		}
 		snap := k.Node.DB.Snapshot()
 		var want []pub
 		for _, row := range snap.Rows("dkg_result") {
@@ -640,4 +721,24 @@ func diffPubs(want, got []pub) string {
 		}
 	}
 	return ""
+}
+
+// e2eEonStart returns the height at which the given eon started on the chain.
+func e2eEonStart(s *dkgsim.Sim, eon uint64) (int64, bool) {
+	for h, res := range s.Chain.Results {
+		var evs []abcitypes.Event
+		evs = append(evs, res.BeginBlockEvents...)
+		for _, tr := range res.TxsResults {
+			evs = append(evs, tr.Events...)
+		}
+		evs = append(evs, res.EndBlockEvents...)
+		for _, ev := range evs {
+			if e, err := shutterevents.MakeEvent(ev, int64(h+1)); err == nil {
+				if x, ok := e.(*shutterevents.EonStarted); ok && x.Eon == eon {
+					return x.Height, true
+				}
+			}
+		}
+	}
+	return 0, false
 }
